@@ -44,6 +44,20 @@ Proof. exact lex_items. Qed.
 Theorem C15_block_layout_lexable : forall B : Block, ls_block B = true -> lexable_i (lay_block B) = true.
 Proof. exact lay_block_lexable. Qed.
 
+(* ... under ARBITRARY layout: any number of spaces, tabs, \n, \r anywhere between the tokens *)
+Theorem C15_layout_lexes_any_layout : forall l : list item, lexable_i_any l = true -> lex (flat_i l) = Ok (toks_i l).
+Proof. exact lex_items_any. Qed.
+
+(* the printed text re-laid-out: every text [flat_i l] with arbitrary layout whose tokens
+   are those of the printed text parses back to the block (the printers' own layout, one
+   space after "," and around binary operators, is the instance [l = lay_block B]) *)
+Theorem C15_roundtrip_any_layout : forall (sidx : bytes -> N) (B : Block) (b : block) (l : list item),
+  printable_block B = true -> block_to_biscuit [] B = Ok b ->
+  lexable_i_any l = true -> lex (reassemble (print_block sidx b)) = Ok (toks_i l) ->
+  parse_block (flat_i l) [] = Ok b.
+Proof. exact ParserProofs.C15_roundtrip_any_layout. Qed.
+Example C15_roundtrip_any_layout_nonvacuous := ParserProofs.C15_roundtrip_any_layout_nonvacuous.
+
 (* printing is total (the printers return byte strings); the stack machine falls
    back to "<invalid expression ...>" texts instead of failing *)
 Theorem C15_print_total : forall sidx (b : block), exists txt : bytes, block_code sidx b = txt.
@@ -59,4 +73,7 @@ Print Assumptions C15_date_roundtrip.
 Print Assumptions C15_civil_calendar.
 Print Assumptions C15_layout_lexes.
 Print Assumptions C15_block_layout_lexable.
+Print Assumptions C15_layout_lexes_any_layout.
+Print Assumptions C15_roundtrip_any_layout.
+Print Assumptions C15_roundtrip_any_layout_nonvacuous.
 Print Assumptions C15_print_total.
